@@ -1,3 +1,4 @@
-import Gotlcp.Oracle.Common
-/-- placeholder: the oracle of C04 is not written yet -/
-def main : IO Unit := Gotlcp.Oracle.mainWith (fun _ _ => none)
+import Gotlcp.Oracle.C04HS
+def main (args : List String) : IO Unit :=
+  if args == ["seal"] then Gotlcp.Oracle.C04.sealService
+  else Gotlcp.Oracle.mainWith Gotlcp.Oracle.C04HS.judge
